@@ -45,7 +45,7 @@ ASSUMPTIONS = [
 RULE = ('legal designs (C08 generator); exactly one injected defect out of 46 kinds (two blocks / block vs net / field vs parent / overlapping slices / '
         'slice vs whole / two constants / constant vs block / two blocks reaching one signal-writing @s.func helper (directly or through different intermediate helpers) / helper write vs direct write / helper write vs net / call cycle between helpers / second driver on a deep part of a struct that one block writes whole and overrides two levels down / headless net / self connection / cycle of 3+ / each port rule Type 1-9 and loop-back, Types 5/7/9 also with a constant (int or Bits, either argument order, //= or connect) as the driver / '
         'wrong operator (=, @=, <<=, for-loop target) in update and update_ff, also as a second write to an object the same block already wrote legally, in either statement order / <<= on slice or field) at a random hierarchy position, plus the duplicated-connection quirk; 2-3 defects; '
-        'exhaustive tables; each under K statement orders with side flips; case = (design, order); non-trivial = design has a defect or at least two '
+        'a history family (one class whose construct parameter selects the expression of a `//= lambda` connection, legal and illegal variants for Types 1-4 / multi-writer / no-writer, every order of elaborating the variants in one process: the verdict must be that of the design itself); exhaustive tables; each under K statement orders with side flips; case = (design, order); non-trivial = design has a defect or at least two '
         'user nets; distinct = canonical JSON')
 
 # ---- begin: translator-based tie of the slice-overlap test (tools/py2lean_overlap.py regenerates Gen/OverlapGen.lean from
@@ -168,6 +168,51 @@ def run_design(ck, d, variants, stream, expect=None, exact=True, extra_instances
   for t in d.tags: ck.hist('directed_shape', t)
   ck.hist('slices_written_as_slice_of_slice', min(len(d.nest), 8))
 
+def run_history(ck, ds, family):
+  """one class, K parameter values = K designs; every order of elaborating them in this process (a fresh copy of the class
+  per order): the verdict of a design must not depend on what was elaborated before it"""
+  import itertools
+  K = len(ds)
+  orders = list(itertools.permutations(range(K)))
+  reps = ck.drv('nets').batch([d.model_line()[1] for d in ds])
+  ms = [parse_reply(r) for r in reps]
+  ress = [g.oracle(d) for d in ds]
+  d0 = ds[0]
+  ident = d0.variant_orders(ck.rng, identity=True)
+  mod = g.load_module(ck.workdir, d0, [ident] * len(orders))
+  first = {}
+  try:
+    for vi, order in enumerate(orders):
+      for pos, p in enumerate(order):
+        d, m, res = ds[p], ms[p], ress[p]
+        case = {'design': g.design_to_json(d), 'variant': g.variant_to_json(ident), 'stream': 'history', 'family': family,
+                'history': [list(ds[q].hist[q]) if False else q for q in order[:pos]], 'param': p, 'defects': []}
+        ck.count(case, True)
+        top, exc, msg = g.elaborate_with(mod, d0, vi, p)
+        real = exc or 'ok'
+        ocls = g.expected_class(res) or ['ok']
+        src = d0.source([ident])
+        sig = {'stream': 'history', 'family': family}
+        detail = {'param': p, 'elaborated_before': list(order[:pos]), 'lambdas': [d0.lam_src(sp, 0) for sp in d0.hist],
+                  'expected': ocls, 'exception': real, 'message': msg[:400], 'source': src}
+        if pos == 0: first.setdefault(p, real)
+        # direct oracle: the verdict is a function of the design
+        if res['legal'] and real != 'ok':
+          ck.violation('legal-design-rejected', dict(sig, exc=real), case, detail)
+        elif not res['legal'] and real == 'ok':
+          ck.violation('illegal-design-accepted', sig, case, detail)
+        elif real not in ocls:
+          ck.violation('wrong-error-class', dict(sig, got=real), case, detail)
+        elif p in first and first[p] != real:
+          ck.violation('history-dependent-verdict', sig, case, dict(detail, alone=first[p]))
+        mcls, _ = model_verdict(m)
+        if (mcls or ['ok']) != [real] and real not in mcls:
+          ck.disagreement('verdict-class', case, {'stage': m['stage'], 'errs': m['errs']}, {'exception': real, 'message': msg[:300]})
+        ck.hist('verdict', real); ck.hist('history_position', pos)
+  finally:
+    g.unload_module(mod)
+  ck.hist('stream', 'history'); ck.hist('history_family', family)
+
 def variants_of(d, rng, k):
   return [d.variant_orders(rng, identity=(i == 0)) for i in range(k)]
 
@@ -202,6 +247,10 @@ def run(ck):
       if g.inject(d, rng, kind) is not None: n += 1
     if n < 2: continue
     pend.add(d, variants_of(d, rng, 2 if quick else 3), 'multi-defect', exact=False)
+  # ---- history: parameter-selected lambda connections, all elaboration orders in one process
+  for family in ('type1', 'type2', 'type3', 'type4', 'multi', 'nowriter'):
+    for _ in range(3 if quick else 40):
+      run_history(ck, g.gen_history(rng, family), family)
   # ---- exhaustive small tables
   tables = [('table-port-nets', g.table_port_nets(rng) + g.table_const_ports(rng)), ('table-port-upblk', g.table_port_upblk(rng)), ('table-ops', g.table_ops(rng))]
   pairs = g.table_write_pairs(rng, ('b', 4)) + g.table_write_pairs(rng, ('s', 'PB'))
